@@ -18,7 +18,8 @@ RULE = ("real Snapshot.take and async_take+wait on 1-4 simulated ranks (threads 
         "workloads: private/replicated tensors, per-rank extra keys, batching on/off, chunking) under schedules "
         "{fifo, lifo, starve rank r, starve all but r, random}; for each recorded write history crash cuts at write "
         "boundaries are materialised into a scratch directory (completed writes present; in-flight write absent / "
-        "half / complete; metadata torn at several offsets) and the real Snapshot(path).metadata / restore is run. "
+        "half / complete; metadata torn at several offsets) and the real Snapshot(path).metadata / restore is run; the same "
+        "check on the storage state left by attempts in which a payload write failed (empty and non-empty error messages). "
         "Non-trivial = at least 2 ranks; distinct by (workload, mode, schedule) and (cut index, variant).")
 TRUSTED = [
     "Coq 8.16.1 kernel and vm_compute; theorems closed under the global context",
@@ -108,6 +109,7 @@ def correspond(ctx: Ctx) -> Result:
                     coq.append((f"({term(nwr)}, {term([tuple(e) for e in evs])})", val(exp)))
                     meta.append(replay)
                 shutil.rmtree(root, ignore_errors=True)
+    check_after_failed_write(ctx, res)
     bad, errs = coqrun.run_cases("C02_sync", IMPORTS, "obs_commit", coq, shard=100, in_type="list Z * list (Z * Z)")
     for e in errs:
         res.mismatches.append(Mismatch(CORRESPONDENCES[0], "coqc error", None, e))
@@ -117,8 +119,50 @@ def correspond(ctx: Ctx) -> Result:
     return res
 
 
+def check_after_failed_write(ctx: Ctx, res: Result):
+    """the storage state left behind by an attempt in which a payload write FAILED (any rank, any write, error message
+    empty or not) is 'no snapshot or a complete one' too: opening it raises, or it restores completely"""
+    rng = ctx.rng
+    for i in range(ctx.n(6, 30)):
+        wl = cc.make_workload(rng)
+        for mode in ("sync", "async"):
+            root = ctx.scratch("ref")
+            ref = cc.run_take(wl, os.path.join(root, "snap"), mode, "fifo")
+            shutil.rmtree(root, ignore_errors=True)
+            if ref.deadlock or any(e is not None for e in ref.errors):
+                continue
+            targets = [(r, n) for r in range(wl["W"]) for n in range(ref.nwrites[r]) if not (r == 0 and n == ref.nwrites[0] - 1)]
+            for (fr, fn_) in rng.sample(targets, min(len(targets), ctx.n(2, 5))):
+                root = ctx.scratch("failw")
+                path = os.path.join(root, "snap")
+                seed = rng.randrange(1 << 30)
+                how = "fail-empty" if seed % 2 == 0 else "fail"
+                sched = rng.choice(["fifo", "random", ("starve", fr)])
+                world = cc.run_take(wl, path, mode, sched, seed, write_policy=lambda r, p, n, fr=fr, fn_=fn_, how=how: how if (r == fr and n == fn_) else None)
+                replay = {"workload": wl, "mode": mode, "sched": sched, "seed": seed, "fail_rank": fr, "fail_nth": fn_, "how": how}
+                failed = [w for w in cc.writes_of(world) if w["failed"]]
+                res.evaluations += 1
+                res.nontrivial.add(f"failw:{i}:{mode}:{fr}:{fn_}:{how}")
+                res.count("failed_write_runs", f"{mode}:{'empty' if how == 'fail-empty' else 'text'}-message")
+                if failed and failed[0]["path"] != cc.META:
+                    msg = cc.check_cut(wl, path)
+                    if msg:
+                        res.failures.append(Failure(f"C02:{mode}:readable-but-incomplete-after-failed-write",
+                                                    f"payload write #{fn_} of rank {fr} failed ({how}), yet {msg} [W={wl['W']} sched={sched}]", replay))
+                shutil.rmtree(root, ignore_errors=True)
+
+
 def replay(ctx: Ctx, data):
     wl = data["workload"]
+    if "fail_rank" in data:
+        root = ctx.scratch("replay")
+        path = os.path.join(root, "snap")
+        sched = data["sched"] if isinstance(data["sched"], str) else tuple(data["sched"])
+        fr, fn_ = data["fail_rank"], data["fail_nth"]
+        cc.run_take(wl, path, data["mode"], sched, data["seed"], write_policy=lambda r, p, n: data["how"] if (r == fr and n == fn_) else None)
+        msg = cc.check_cut(wl, path)
+        shutil.rmtree(root, ignore_errors=True)
+        return Failure(f"C02:{data['mode']}:readable-but-incomplete-after-failed-write", msg, data) if msg else None
     root = ctx.scratch("replay")
     path = os.path.join(root, "snap")
     sched = data["sched"] if isinstance(data["sched"], str) else tuple(data["sched"])
